@@ -132,6 +132,19 @@ void mon_c10(CaseCtx &c, Rng &rng){
         if (m > 0){
             std::vector<double> vals = model_values(xc, d, m, 1, (T.isLocalPolynomial() || T.isWavelet()) ? (rng.coin() ? 0 : 1) : 1);
             T.loadNeededValues(vals); C.loadNeededValues(vals);
+            {   // integrate() carries the same factor as the weights: integrate_T = sum_i w_T,i v_i, and (linear maps) = factor * integrate_C
+                std::vector<double> qt = T.integrate(), qc = C.integrate(), wt2 = T.getQuadratureWeights();
+                const double *lv = T.getLoadedValues();
+                double qs = map.quad_scale(cfg.alpha, cfg.beta);
+                for(int k=0; k<m; k++){
+                    double sw = 0, aw = 0; for(int i=0; i<n; i++){ double t = wt2[(size_t) i] * lv[(size_t) i * (size_t) m + (size_t) k]; sw += t; aw += std::fabs(t); }
+                    double tol = 4e3 * EPS10 * (aw + std::fabs(sw)) + (T.isWavelet() ? 1e-9 * aw : 0.0);
+                    if (!(std::fabs(qt[(size_t) k] - sw) <= tol)){
+                        c.viol("integrate:not-the-transformed-weights-times-values:" + cls, J().i("output", k).num("integrate", qt[(size_t) k]).num("weights_times_values", sw).obj()); return; }
+                    if (!want_conf && !(std::fabs(qt[(size_t) k] - qc[(size_t) k] * qs) <= tol + 4e3 * EPS10 * std::fabs(qc[(size_t) k] * qs))){
+                        c.viol("integrate:wrong-transform-factor:" + cls, J().i("output", k).num("transformed", qt[(size_t) k]).num("canonical_times_factor", qc[(size_t) k] * qs).obj()); return; }
+                }
+            }
             std::vector<double> lo, hi; domain_box(C, lo, hi);
             double vmax = vmaxabs(vals);
             for(int q=0; q<8; q++){
